@@ -170,9 +170,14 @@ static const char *of_rs_allPp[] =      /* GF_BITS	polynomial		*/
  * In any case the macro of_gf_mul(x,y) takes care of multiplications.
  */
 
+#if defined(OPENFEC_VERIF) && defined(OPENFEC_VERIF_GF28_TABLES)
+/* verification builds only: tables preloaded from a generated header */
+#include OPENFEC_VERIF_GF28_TABLES
+#else
 static gf	of_rs_gf_exp[2*GF_SIZE];	/* index->poly form conversion table	*/
 static int	of_rs_gf_log[GF_SIZE + 1];	/* Poly->index form conversion table	*/
 static gf	of_rs_inverse[GF_SIZE+1];	/* inverse of field elem.		*/
+#endif
 /* inv[\alpha**i]=\alpha**(GF_SIZE-i-1)	*/
 
 /*
@@ -203,7 +208,9 @@ of_modnn (INT32 x)
  * declared with USE_GF_MULC . See usage in addmul1().
  */
 #if (GF_BITS <= 8)
+#if !(defined(OPENFEC_VERIF) && defined(OPENFEC_VERIF_GF28_TABLES))
 static gf of_gf_mul_table[GF_SIZE + 1][GF_SIZE + 1];
+#endif
 
 #define of_gf_mul(x,y) of_gf_mul_table[x][y]
 
@@ -735,7 +742,9 @@ of_invert_vdm (gf *src, int k)
 	return 0 ;
 }
 
+#if !(defined(OPENFEC_VERIF) && defined(OPENFEC_VERIF_GF28_TABLES))
 static int of_rs_initialized = 0 ;
+#endif
 /* static */
 void		/* VR: removed static */
 of_rs_init()
